@@ -35,3 +35,9 @@ Theorem C15_armed_before_call_deadline : forall now start qs lifetime qt tau,
   (tcp_prefix_timeout_at now start qs lifetime = Ok tau -> 0 < tau /\ now + tau <= start + lifetime) /\
   (tcp_body_timeout_at now start qs lifetime = Ok tau -> 0 < tau /\ now + tau <= start + lifetime).
 Proof. exact armed_before_call_deadline. Qed.
+(* async clients (tokio, async-std, smol): the call is wrapped in a timeout of the configured query
+   lifetime and every attempt's receive loop in a timeout of the configured query timeout — the
+   timeout combinators themselves are trusted (armed with D at t they resolve by t + D) *)
+Theorem C15_async_durations_are_configured : forall smol cfg_lifetime cfg_qt,
+  async_call_duration smol cfg_lifetime cfg_qt = cfg_lifetime /\ async_attempt_duration smol cfg_lifetime cfg_qt = cfg_qt.
+Proof. exact async_durations_are_configured. Qed.
